@@ -91,6 +91,10 @@ def build(ctx, v, t):
         for f, x in fields.items():
             setattr(o, f, x)
         return o
+    if isinstance(t, S._RngT):
+        from replay.stubs import ScriptedRng
+
+        return ScriptedRng(ctx.world)
     if isinstance(t, S.Abstract):
         from replay.stubs import ScriptedStub
 
